@@ -109,9 +109,14 @@ func materialiseExt(w *Wiring, l layout, f *fileSpec, alt bool) *hooks {
 		}
 		return strings.Join(s, " "), len(s)
 	}
-	all := func(pfx string) string { // every node under a name of its own
+	// the page names every node (the first 50 of a large wiring: every name
+	// costs a walk of up to 256 levels when the chain fails, and failures are
+	// not cached - 20000 names make page.Decode allocate 12 GB in 33 s, which
+	// is linear in the file size but not what these cases are about)
+	top := min(w.N, 50)
+	all := func(pfx string) string {
 		var s []string
-		for i := 1; i <= w.N; i++ {
+		for i := 1; i <= top; i++ {
 			s = append(s, fmt.Sprintf("/%s%d %s", pfx, i, ref(i)))
 		}
 		return strings.Join(s, " ")
@@ -184,7 +189,7 @@ func materialiseExt(w *Wiring, l layout, f *fileSpec, alt bool) *hooks {
 				}
 			}
 			var cs []string
-			for i := 1; i <= w.N; i++ {
+			for i := 1; i <= top; i++ {
 				cs = append(cs, fmt.Sprintf("/C%d [/Separation /Ink%d /DeviceGray %s]", i, i, ref(i)))
 			}
 			h.pageRes = fmt.Sprintf("<< /ColorSpace << %s >> >>", strings.Join(cs, " "))
@@ -241,7 +246,7 @@ func materialiseExt(w *Wiring, l layout, f *fileSpec, alt bool) *hooks {
 				}
 			}
 			var fonts []string
-			for i := 1; i <= w.N; i++ {
+			for i := 1; i <= top; i++ {
 				f.obj(l.extra+i, fmt.Sprintf("<< /Type /Font /Subtype /Type1 /BaseFont /Helvetica /ToUnicode %s >>", ref(i)), true)
 				fonts = append(fonts, fmt.Sprintf("/F%d %s", i, ref(l.extra+i)))
 			}
